@@ -113,6 +113,16 @@ def gen(rng, idx, tier):
         ops.append({"on_accept": ai, "d": d0 + rng.choice([0.0, 0.001, 0.06, 0.3]), "op": "close", "id": oid + 1})
         oid += 2
     if rng.random() < 0.08:
+        # close() while the very first write on the new link is stalled by flow control (for the serial client that is the
+        # configuration packet written inside connect(): the link exists, connect() has not returned yet)
+        ai = max(i for i, e in enumerate(plan["script"]) if e["a"] == "accept")
+        e = plan["script"][ai]
+        e.setdefault("w", {})["pause"] = {"0": rng.choice([0.5, 3.0, 20.0])}
+        e["w"].pop("fail_at", None)
+        ops = [o for o in ops if o["op"] != "close"]
+        ops.append({"on_accept": ai, "d": rng.choice([0.0, 0.001, 0.01, 0.2]), "op": "close", "id": oid})
+        oid += 1
+    if rng.random() < 0.08:
         # close() awaited from inside a callback (the caller is then one of the client's own tasks)
         ops = [o for o in ops if o["op"] != "close"]
         if rng.random() < 0.7:
